@@ -31,6 +31,9 @@ int main(int argc, char **argv) {
         if (it % 11 == 0) sprintf(str, "0x%" PRIX64 "zz", v);
         uint64_t oa = 0x1234, ob = 0x1234;
         int ra = sscanf(str, "%" PRIx64, &oa), rb = vpmodel_sscanf(str, "%" PRIx64, &ob);
+        {   char *ea = 0, *eb = 0; unsigned long long ua = strtoull(str, &ea, 16), ub = vpmodel_strtoull(str, &eb, 16);
+            n++; if (ua != ub || ea != eb) { bad++; if (bad < 5) printf("MISMATCH strtoull '%s'\n", str); }
+            n++; if (strspn(str, "0123456789abcdef") != vpmodel_strspn(str, "0123456789abcdef") || strcspn(str, "xX ") != vpmodel_strcspn(str, "xX ")) { bad++; if (bad < 5) printf("MISMATCH strspn '%s'\n", str); } }
         n++; if (ra != rb || oa != ob) { bad++; if (bad < 5) printf("MISMATCH sscanf '%s': %d %llx vs %d %llx\n", str, ra, (unsigned long long)oa, rb, (unsigned long long)ob); }
     }
     printf("FMT-DIFF cases=%ld mismatches=%ld unsupported=%d\n", n, bad, vpmodel_unsupported);
